@@ -43,6 +43,18 @@ pub fn make_driver(
     }
 }
 
+/// A driver whose server owns the backend object ITSELF (no harness wrapper in between): whatever the backend type
+/// overrides or adds beyond `txn` is in force, as in the real executable.  SQLite only (another handle on the same
+/// directory serves the harness's own reads).
+pub fn make_driver_raw_sqlite(kind: &str, days: i64, versions: u32, dir: &std::path::Path) -> anyhow::Result<Box<dyn Driver>> {
+    let cfg = ServerConfig { snapshot_days: days, snapshot_versions: versions };
+    let st = taskchampion_sync_server_storage_sqlite::SqliteStorage::new(dir)?;
+    Ok(match kind {
+        "lib" => Box::new(LibDriver::new(cfg, st)),
+        _ => Box::new(make_http_driver(cfg, None, st)),
+    })
+}
+
 pub struct Ledger {
     /// accepted versions per client, in acceptance order: (vid, parent)
     pub acc: Vec<Vec<(Uuid, Uuid)>>,
